@@ -32,6 +32,8 @@ def cv():
 
 
 class VhdxModel(Model):
+    sbit_obligation = "ghost_assert[?]"  # the one obligation in which SBIT's definition is unfolded (the bitmap bridge); set by _read_sectors
+
     def __init__(self, ss, wf=True, differencing=True):
         super().__init__()
         c = cv()
@@ -54,7 +56,7 @@ class VhdxModel(Model):
         self.G = z3.Function("Guest", I, I)
         self.SBIT = z3.Function("SBIT", I, I, I)  # opaque: sector-bitmap bit of (block, sector in block); definition unfolded only in the bridging lemma
         register_opaque("Guest", self.guest_def)
-        register_opaque("SBIT", self.sbit, when=lambda name: "ghost_assert" in name)
+        register_opaque("SBIT", self.sbit, when=lambda name: name.endswith(VhdxModel.sbit_obligation))
         self.globals["MB"] = IntV(z3.IntVal(c.MB))
         self.globals["c_vhdx"] = ObjV("c_vhdx")
         for nm in ("PAYLOAD_BLOCK_NOT_PRESENT", "PAYLOAD_BLOCK_UNDEFINED", "PAYLOAD_BLOCK_ZERO", "PAYLOAD_BLOCK_UNMAPPED",
@@ -150,6 +152,21 @@ def _bitmap_bridge(eng, st):
     return z3.ForAll([i], z3.Implies(z3.And(0 <= i, i < rc), BITFN(bm.at((bit_idx + i) / 8), (bit_idx + i) % 8) == m.SBIT(block, sib + i)))
 
 
+def _run_bridge(ss):
+    def f(eng, st):
+        """bridging lemma (R5) for one bitmap run: the guest bytes of the run's sectors are the parent's bytes (run_type 0) or this
+        file's bytes at the block's payload offset (run_type 1); proved from the run contract + the bitmap bridge, then assumed"""
+        m = eng.model
+        rt, rc = st.env["run_type"].e, st.env["run_count"].e
+        rel, sector, sib = st.env["relative_sector"].e, st.env["sector"].e, st.env["sector_in_block"].e
+        pbo = m.fields[st.env["bat_entry"].path + ".file_offset_mb"].e
+        st.anchor(rel)
+        base = (sector + rel) * ss
+        return forall_k(rc * ss, lambda k: m.G(base + k) == z3.If(rt == 0, m.PG(base + k), z3.Select(m.farr, pbo * MB + (sib + rel) * ss + k)))
+
+    return f
+
+
 def _read_sectors(ss, mode, differencing, repo="/repo"):
     import ast as _ast
 
@@ -163,6 +180,10 @@ def _read_sectors(ss, mode, differencing, repo="/repo"):
             o = stmt_ordinal(node, lambda n: isinstance(n, _ast.Assign) and any(isinstance(t, _ast.Name) and t.id == "sector_bitmap" for t in n.targets))
             if o is not None:
                 ghost[o] = _bitmap_bridge
+                VhdxModel.sbit_obligation = f"ghost_assert[{o}]"
+            o2 = stmt_ordinal(node, lambda n: isinstance(n, _ast.If) and isinstance(n.test, _ast.Compare) and isinstance(n.test.left, _ast.Name) and n.test.left.id == "run_type")
+            if o2 is not None:
+                ghost[("before", o2)] = _run_bridge(ss)
         except Unsupported:
             pass
 
@@ -186,6 +207,8 @@ def _read_sectors(ss, mode, differencing, repo="/repo"):
         rel = st.env["relative_sector"].e
         sector = st.env["sector"].e
         plen = st.ghost["plen0"]
+        st.anchor(rel)  # sectors of this piece already produced
+        st.anchor(rel * ss, cls="byte")
         return z3.And(rel == plen, acc.n == acc0.n + rel * ss,
                       forall_k(acc0.n, lambda k: acc.at(k) == acc0.at(k)),
                       forall_k(rel * ss, lambda k: acc.at(acc0.n + k) == m.G(sector * ss + k)),
@@ -213,7 +236,7 @@ def _read_sectors(ss, mode, differencing, repo="/repo"):
         params=lambda m: {"self": ObjV("self"), "sector": IntV(sector0), "count": IntV(count0)},
         requires=requires, post=post,
         loops={("While", 0): LoopSpec(inv, lambda eng, st: st.env["count"].e), ("For", 0): LoopSpec(inner_inv)}, ghost_asserts=ghost,
-        shifts={"loop.For0": r"^(relative_sector)!", "": r"^(sectors_read_len)!"}, units=(ss,), mode=mode, allow_any_exception=(mode != "functional"),
+        shifts={"loop.For0": r"^$", "": r"^(sectors_read_len)!"}, units=(ss,), mode=mode, allow_any_exception=(mode != "functional"),
         case=f"ss={ss}" + (",differencing" if differencing else ",no-parent"),
         note="block size, chunk ratio, BAT contents, block placement and request symbolic; logical sector size is a case parameter (complete: {512, 4096})")
 
